@@ -59,6 +59,20 @@ Report(mm, code, detail) ==
 
 Check(mm, cond, code, detail) == IF cond THEN mm ELSE Report(mm, code, detail)
 
+\* Reply correlation on the real protocol objects - a clause family shared by C03 ("exactly one terminal reply per
+\* request, to the right client") and C18: reported once for each of the two properties that is active.
+\*   R1 a reply answers THE command it is read for: binary - RequestId, command type, key and LockId of the request;
+\*      text - the i-th reply answers the i-th command, carries its LockId, and is not a notice (EXPRIED)
+\*   R2 at most one terminal reply per request; every request of a connection that stays open is answered
+\*   R3 asynchronous notices go to the connection that issued the request they end, and only for a request that
+\*      was granted; a text connection never reads an unsolicited or stale reply
+\*   R4 the connection keeps answering: a wait for a reply / for Close() that never ends (watchdog of the driver)
+ReportP(mm, p, code, detail) ==
+    IF PrintT("VIOL " \o ToJson([prop |-> p, code |-> code, line |-> l, trace |-> mm.tr, name |-> mm.name, t |-> mm.t, detail |-> detail]))
+    THEN [mm EXCEPT !.nv = @ + 1] ELSE mm
+Corr(mm, code, detail) == FoldLeft(LAMBDA acc, p : ReportP(acc, p, code, detail), mm, SetToSeq(Props \cap {"C03", "C18"}))
+CorrCheck(mm, cond, code, detail) == IF cond THEN mm ELSE Corr(mm, code, detail)
+
 M0 == [ conns |-> EmptyFn, reqs |-> EmptyFn, users |-> EmptyFn, textq |-> EmptyFn,
         holds |-> {}, maybe |-> {}, last |-> [keys |-> <<>>, t |-> 0], drained |-> FALSE, crashed |-> FALSE,
         lastc |-> 0,      \* the connection whose Close() was started or resumed last
@@ -116,7 +130,7 @@ StepReq(mm, e) ==
     \* was never created, or 0xff) can only end in UNKNOWN_DB and touches no key: it counts as a user of none
     LET db == IF Has(e, "db") THEN e.db ELSE 0
         r  == [id |-> e.id, c |-> e.c, kind |-> e.kind, cmd |-> e.cmd, will |-> e.will, key |-> e.key, lid |-> e.lid,
-               to |-> e.to, ex |-> e.ex, rc |-> e.rc, cnt |-> e.cnt, t |-> e.t, nterm |-> 0, db |-> db,
+               to |-> e.to, ex |-> e.ex, rc |-> e.rc, cnt |-> e.cnt, t |-> e.t, nterm |-> 0, db |-> db, granted |-> FALSE,
                \* an unlock by the LockId of an intact left-behind hold, before its deadline, has to be accepted
                must0 |-> /\ e.cmd = "U" /\ ~e.will /\ db = 0 /\ ~mm.drained
                          /\ \E x \in mm.lefth : /\ x.key = e.key /\ x.lid = e.lid /\ mm.conns[x.c].st = "closed"
@@ -154,8 +168,13 @@ Account(mm, id, c, res, ct, e) ==
         m4 == Check(m3, ~(r.will /\ (r.cmd = "U" \/ r.to = 0) /\ res # EXPRIED /\ r.nterm = 0 /\ Later # {}), "wills-executed-out-of-order",
                     [c |-> o, kind |-> O.kind, rid |-> id, overtaken_by |-> SetToSeq(Later), evidence |-> "order of the will replies on the successor"])
         hold == [key |-> r.key, lid |-> r.lid, c |-> o, t |-> e.t, ex |-> r.ex, rid |-> id]
+        c1 == CorrCheck(m4, legit, "reply-delivered-to-wrong-connection",
+                        [origin |-> o, to |-> c, rid |-> id, res |-> res, origin_kind |-> O.kind, origin_state |-> O.st])
+        c2 == CorrCheck(c1, ~(res # EXPRIED /\ r.nterm >= 1), "request-answered-twice", [c |-> o, kind |-> O.kind, rid |-> id, res |-> res, will |-> r.will])
+        c3 == CorrCheck(c2, ~(res = EXPRIED /\ c = o /\ O.st = "open" /\ (r.cmd = "U" \/ ~r.granted)), "notice-for-a-request-that-holds-nothing",
+                        [c |-> o, kind |-> O.kind, rid |-> id, cmd |-> r.cmd])
         \* left-behind holds: unlock by the original LockId is accepted (once per depth); nothing is granted over them
-        m5 == Check(m4, ~(r.must0 /\ res # 0 /\ r.nterm = 0), "left-behind-hold-not-unlockable",
+        m5 == Check(c3, ~(r.must0 /\ res # 0 /\ r.nterm = 0), "left-behind-hold-not-unlockable",
                     [key |-> r.key, lid |-> r.lid, res |-> res, by |-> o])
         Mine == {x \in mm.lefth : x.key = r.key /\ x.lid = r.lid}
         kl == <<r.key, r.lid>>
@@ -168,6 +187,7 @@ Account(mm, id, c, res, ct, e) ==
         m7 == Check(m6, ~(r.cmd = "L" /\ res = 0 /\ r.db = 0 /\ r.cnt = 0 /\ Over # {}), "lock-granted-over-left-behind-hold",
                     [key |-> r.key, lid |-> r.lid, rid |-> id, over |-> SetToSeq(Over)])
     IN [m7 EXCEPT !.unl = IF isunl THEN SetFn(@, kl, nunl) ELSE @,
+                  !.reqs[id].granted = @ \/ (r.cmd = "L" /\ res = 0),
                   !.reqs[id].nterm = IF res # EXPRIED THEN @ + 1 ELSE @,
                   !.holds = IF r.cmd = "L" /\ res = 0 /\ r.ex > 0 /\ r.db = 0 THEN @ \cup {hold} ELSE @,
                   !.maybe = IF res = EXPRIED THEN @ \cup {<<r.key, r.lid>>} ELSE @]
@@ -183,16 +203,24 @@ StepFrame(mm0, e) ==
               ELSE IF plain # {} THEN Max(plain)
               ELSE IF byKey # {} THEN Max(byKey) ELSE -1
     IN IF id = -1
-       THEN Report(mm, "reply-misrouted", [origin |-> -1, origin_kind |-> "unknown", to |-> e.c, rid |-> e.rid, res |-> e.res,
-                                            key |-> e.key, lid |-> e.lid, via |-> "unknown request id"])
-       ELSE Account(mm, id, e.c, e.res, e.ct, e)
+       THEN Corr(Report(mm, "reply-misrouted", [origin |-> -1, origin_kind |-> "unknown", to |-> e.c, rid |-> e.rid, res |-> e.res,
+                                                 key |-> e.key, lid |-> e.lid, via |-> "unknown request id"]),
+                 "reply-for-unknown-request", [to |-> e.c, rid |-> e.rid, res |-> e.res, key |-> e.key, lid |-> e.lid])
+       ELSE LET r == mm.reqs[id]
+                \* R1 (binary): the frame bearing a RequestId is the reply to that request - its command type, key, LockId
+                same == e.rid # id \/ (e.key = r.key /\ e.lid = r.lid /\ ((e.ct = 2) <=> (r.cmd = "U")))
+            IN Account(CorrCheck(mm, same, "reply-answers-another-request",
+                                 [c |-> e.c, kind |-> "bin", rid |-> id, sent |-> [cmd |-> r.cmd, key |-> r.key, lid |-> r.lid],
+                                  got |-> [ct |-> e.ct, key |-> e.key, lid |-> e.lid, res |-> e.res]]),
+                       id, e.c, e.res, e.ct, e)
 
 StepText(mm0, e) ==
     LET mm == [mm0 EXCEPT !.t = e.t]
         q  == mm.textq[e.c]
     IN IF q = <<>>
-       THEN Report(mm, "reply-misrouted", [origin |-> -1, origin_kind |-> "unknown", to |-> e.c, rid |-> -1, res |-> e.res,
-                                            lid |-> e.lid, via |-> "unsolicited reply on a text connection"])
+       THEN Corr(Report(mm, "reply-misrouted", [origin |-> -1, origin_kind |-> "unknown", to |-> e.c, rid |-> -1, res |-> e.res,
+                                                 lid |-> e.lid, via |-> "unsolicited reply on a text connection"]),
+                 "unsolicited-reply-on-text-connection", [c |-> e.c, res |-> e.res, lid |-> e.lid, shape |-> e.shape])
        ELSE IF Head(q) = 0 THEN [mm EXCEPT !.textq[e.c] = Tail(q)]
        ELSE LET id == Head(q)
                 r  == mm.reqs[id]
@@ -201,7 +229,12 @@ StepText(mm0, e) ==
                THEN LET m2 == Check(m1, e.lid = r.lid \/ e.res # 0, "reply-misrouted",
                                     [origin |-> -1, origin_kind |-> "text", to |-> e.c, rid |-> id, res |-> e.res, lid |-> e.lid,
                                      via |-> "text reply carries the LockId of another request"])
-                    IN Account(m2, id, e.c, e.res, 0, e)
+                        \* R1 (text): the i-th reply answers the i-th command: its LockId, a terminal result (never the EXPRIED
+                        \* notice of an older hold), and a lock result only for a command that is executed now (not a will)
+                        m3 == CorrCheck(m2, e.lid = r.lid /\ e.res # EXPRIED /\ ~r.will, "reply-answers-another-request",
+                                        [c |-> e.c, kind |-> "text", rid |-> id, seq |-> e.seq, sent |-> [cmd |-> r.cmd, key |-> r.key, lid |-> r.lid, will |-> r.will],
+                                         got |-> [lid |-> e.lid, res |-> e.res]])
+                    IN Account(m3, id, e.c, e.res, 0, e)
                ELSE m1          \* +OK of a will registration, or an -ERR line
 
 \* what the connection leaves behind, read from the snapshot right before the disconnect: holders / waiters of its own
@@ -240,6 +273,14 @@ StepHung(mm, e) ==
     Report([mm EXCEPT !.t = e.t, !.conns[e.c].hung = TRUE], "disconnect-never-finished",
            [c |-> e.c, kind |-> C.kind, wills |-> Len(C.wills), inited |-> C.cid # -1])
 
+\* R4: the driver's watchdog gave up waiting for the code under test (the checker reports it only if the same history
+\* hangs again when it is run alone in a fresh process)
+StepHang2(mm, e) ==
+    LET C == IF e.conn \in DOMAIN mm.conns THEN mm.conns[e.conn] ELSE [kind |-> "none", wills |-> <<>>]
+    IN Corr([mm EXCEPT !.crashed = TRUE], IF Has(e, "kind") /\ e.kind = "close" THEN "close-never-returned" ELSE "connection-hung",
+            [what |-> e.what, blocked_in |-> e.frame, state |-> e.state, blocked |-> e.blocked, step |-> e.step, conn |-> e.conn,
+             kind |-> C.kind, deadline_s |-> e.deadline_s])
+
 \* appended by the checker when the harness process died inside a scenario
 StepCrash(mm, e) ==
     LET c == IF mm.lastc \in DOMAIN mm.conns /\ mm.conns[mm.lastc].st = "closing" THEN mm.lastc ELSE 0
@@ -266,8 +307,16 @@ StepCloseAll(mm0, e) ==
                     /\ O.kind = "bin" /\ O.st = "closed" /\ r.nterm = 0
                     /\ Successor(mm, r.c) # {}
                     /\ r.t + r.to + 3 < e.t}
+        \* R2: every request of a connection that is still open is answered by now (all deadlines have passed)
+        Silent == {id \in DOMAIN mm.reqs :
+                      LET r == mm.reqs[id] IN
+                      /\ r.kind = "bin" /\ ~r.will /\ mm.conns[r.c].st = "open" /\ r.nterm = 0 /\ r.t + r.to + 3 < e.t}
+        Owing == {c \in DOMAIN mm.conns : mm.conns[c].kind = "text" /\ mm.conns[c].st = "open" /\ mm.textq[c] # <<>>}
+        n1 == CorrCheck(mm, Silent = {}, "request-never-answered", [kind |-> "bin", rids |-> SetToSeq(Silent)])
+        n2 == CorrCheck(n1, Owing = {}, "request-never-answered", [kind |-> "text", conns |-> SetToSeq(Owing),
+                                                                   waiting |-> [i \in 1..Cardinality(Owing) |-> mm.textq[SetToSeq(Owing)[i]]]])
     IN IF mm.crashed THEN mm
-       ELSE Check(mm, Lost = {}, "reply-lost-despite-reconnect",
+       ELSE Check(n2, Lost = {}, "reply-lost-despite-reconnect",
                   [rids |-> SetToSeq(Lost), wills |-> SetToSeq({id \in Lost : mm.reqs[id].will}),
                    origins |-> SetToSeq({mm.reqs[id].c : id \in Lost})])
 
@@ -395,6 +444,7 @@ Step(mm, e) ==
       [] e.e = "wclosed"    -> StepClosed(mm, e)
       [] e.e = "wclosehung" -> StepHung(mm, e)
       [] e.e = "wcrash"     -> StepCrash(mm, e)
+      [] e.e = "hang"       -> StepHang2(mm, e)
       [] e.e = "wcloseall"  -> StepCloseAll(mm, e)
       [] e.e = "wdrain"     -> [mm EXCEPT !.drained = TRUE]
       [] e.e = "snap"       -> StepSnap(mm, e)
